@@ -2,6 +2,9 @@ module github.com/spq/pkappa2/verifx
 
 go 1.25.0
 
-require github.com/spq/pkappa2 v0.0.0
+require (
+	github.com/spq/pkappa2 v0.0.0
+	rsc.io/binaryregexp v0.2.0
+)
 
 replace github.com/spq/pkappa2 => /repo
